@@ -27,6 +27,10 @@ ALLOWED_AXIOMS = {'propext', 'Classical.choice', 'Quot.sound'}
 FORBIDDEN = re.compile(r'\b(sorry|admit|native_decide|bv_decide|implemented_by)\b|^axiom |\bunsafe |maxHeartbeats 0', re.M)
 
 
+def close_stderr():
+    os.close(2)
+
+
 def sh(cmd, **kw):
     return subprocess.run(cmd, capture_output=True, text=True, **kw)
 
@@ -222,7 +226,7 @@ def imported_modules(prop):
 # =====================================================================================================
 # step 3: correspondence + oracles
 # =====================================================================================================
-OTHER_ENV = {'TZ': 'Pacific/Kiritimati', 'LC_ALL': 'C', 'LANG': 'C', 'PYTHONIOENCODING': 'ascii', 'VERIF_LOGLEVEL': 'DEBUG'}
+OTHER_ENV = {'TZ': 'Pacific/Kiritimati', 'LC_ALL': 'C', 'LANG': 'C', 'PYTHONIOENCODING': 'ascii', 'VERIF_LOGLEVEL': 'DEBUG', 'VERIF_STDERR': 'closed'}
 
 
 _OTHERS = None
@@ -271,7 +275,9 @@ def run_job(job):
         try:
             r = sh([job.get('python') or PY] + list(job.get('pyflags') or []) + [os.path.join(HARN, 'worker.py'), jf, of], timeout=job.get('timeout', 3000),
                    env=dict(os.environ, VERIF_REPO=REPO, PYTHONDONTWRITEBYTECODE='1', PYTHONHASHSEED=str(hashseed_of(job)),
-                            **(job.get('env') or {})))
+                            **(job.get('env') or {})),
+                   # (the run in the other environment starts with standard error closed, as a daemon does: sys.stderr is None)
+                   **({'preexec_fn': close_stderr} if (job.get('env') or {}).get('VERIF_STDERR') == 'closed' else {}))
         except subprocess.TimeoutExpired:
             return {'cases': [], 'error': 'worker timed out'}
         if not os.path.exists(of):
